@@ -396,6 +396,7 @@ package keeper
 // The second loop ranges over a Go map: its effect is stated as a function of the map's content only (order-free).
 //@ func (Keeper) DoPenalty(ctx)
 //@   modifies FaultIdx, FaultById
+//@   nopanic [C02.penalty.nopanic]
 //@   ensures [C19.penalty.frame] (forall a addr, d string :: bal(a, d) == old(bal(a, d))) && (forall c string :: Pledge[c] == old(Pledge[c]) && (has(Pledge, c) <==> old(has(Pledge, c))))
 //@   loop L1 invariant 0 <= itpos()
 //@   loop L2 invariant [C01.maporder.penalty] forall k bytes :: rawsel(FaultIdx, k) ==
@@ -417,6 +418,7 @@ package keeper
 // GetAllNode: the genesis export of the Node store - every stored record, each exactly as stored
 //@ func (Keeper) GetAllNode(ctx) (list)
 //@   modifies nothing
+//@   nopanic [C02.getall.node.nopanic]
 //@   ensures [C18.getall.node.stored] forall j int :: 0 <= j && j < len(list) ==> has(Node, list[j].Creator) && Node[list[j].Creator] == list[j]
 //@   ensures [C18.getall.node.complete] forall c string :: has(Node, c) ==> contains(list, Node[c])
 //@   ensures [C18.getall.node.distinct] forall a int, b int :: 0 <= a && a < b && b < len(list) ==> list[a].Creator != list[b].Creator
